@@ -20,9 +20,16 @@ def main():
             a = subprocess.run(["git", "apply", "--unsafe-paths", "--directory=" + root, os.path.join(d, "patch.diff")], cwd=root, capture_output=True, text=True)
             if a.returncode != 0:
                 a = subprocess.run(["patch", "-p1", "-s", "-i", os.path.join(d, "patch.diff")], cwd=root, capture_output=True, text=True)
+            base_used = "working-tree"
+            if a.returncode != 0:
+                # the repository moved on under the patch (a later fix: commit touched the same lines): apply it to the commit it was written against
+                shutil.rmtree(root, ignore_errors=True); os.makedirs(root)
+                t = subprocess.run(f"git -C /repo archive {meta['base_commit_of_repo']} src | tar -x -C {root}", shell=True, capture_output=True, text=True)
+                shutil.copy("/repo/src/codemodder/_version.py", os.path.join(root, "src", "codemodder", "_version.py"))
+                a = subprocess.run(["patch", "-p1", "-s", "-i", os.path.join(d, "patch.diff")], cwd=root, capture_output=True, text=True); base_used = meta["base_commit_of_repo"][:7]
             if a.returncode != 0:
                 results[name] = {"status": "patch-does-not-apply", "error": (a.stderr or a.stdout)[-300:]}; print(name, "PATCH DOES NOT APPLY"); continue
-            entry = {"status": "ok", "checks": {}, "at": time.strftime("%Y-%m-%dT%H:%M:%S")}
+            entry = {"status": "ok", "applied_to": base_used, "checks": {}, "at": time.strftime("%Y-%m-%dT%H:%M:%S")}
             demo = os.path.join(d, "demo.py")
             if os.path.exists(demo):
                 env = dict(os.environ, PYTHONPATH=os.path.join(root, "src"), PATH="/venv/bin:" + os.environ.get("PATH", ""), SEMGREP_ENABLE_VERSION_CHECK="0", SEMGREP_SEND_METRICS="off")
